@@ -1241,22 +1241,29 @@ class Parser:
             if isinstance(e, int):
                 reserved.append(e)
             elif isinstance(e, str):
-                m = re.search(r"\s*(?P<start>[0-9]+)\s*(\-|to)\s*(?P<end>[0-9]+)\s*", e)
-                if m is None:
-                    raise RTMASyntaxError(f"_RESERVED_.id has invalid entry: {e}")
-
-                start = int(m.groupdict()["start"])
-                end = int(m.groupdict()["end"])
-
-                if start > end:
-                    raise RTMASyntaxError(f"_RESERVED_.id has an invalid range: {e}")
-
-                if ((end + 1) - start) > 100:
-                    raise RTMASyntaxError(
-                        f"_RESERVED_.id has an spans too large a range (100 max): {e}"
+                # one range, or several separated by commas; the whole text must be
+                # ranges (anything else would silently drop part of the reservation)
+                for part in e.split(","):
+                    m = re.fullmatch(
+                        r"\s*(?P<start>[0-9]+)\s*(\-|to)\s*(?P<end>[0-9]+)\s*", part
                     )
+                    if m is None:
+                        raise RTMASyntaxError(f"_RESERVED_.id has invalid entry: {e}")
 
-                reserved.extend(list(range(start, end + 1)))
+                    start = int(m.groupdict()["start"])
+                    end = int(m.groupdict()["end"])
+
+                    if start > end:
+                        raise RTMASyntaxError(
+                            f"_RESERVED_.id has an invalid range: {e}"
+                        )
+
+                    if ((end + 1) - start) > 100:
+                        raise RTMASyntaxError(
+                            f"_RESERVED_.id has an spans too large a range (100 max): {e}"
+                        )
+
+                    reserved.extend(list(range(start, end + 1)))
             else:
                 raise RTMASyntaxError(f"_RESERVED_.id has an invalid entry: {e}")
 
